@@ -17,6 +17,6 @@ META = {
 def run(ctx, res):
     prog = ctx.prog("K0")
     import engine
-    m = framing.rules_new(prog, engine.Filtered(res, {"A-shape", "S-closed"}))
+    m = framing.rules_new(prog, engine.Filtered(res, {"A-shape", "S-closed", "A-inc"}))
     framing.rules_scan(prog, res, m)
     framing.rules_iter(prog, res)
